@@ -127,8 +127,7 @@ def run(out, unit, tier, seed, workdir, overlay):
     out.counters["forbidden_routine_hits"] = hits
     if len(out.samples) < 8:
         out.samples.append({"monitor": "public-path", "operations": ops, "breakpoints": len(bps), "example": plans.get(3)})
-    if os.environ.get("VERIF_DEV_STEPS"):
-        run_steps(out, tier, seed, workdir, vt, binp, nm, mark)
+    run_steps(out, tier, seed, workdir, vt, binp, nm, mark)
 
 
 def lib_ranges(binp, nm):
@@ -152,9 +151,13 @@ def lib_ranges(binp, nm):
             harness += 1
             continue
         lo, sz = sizes[name]
-        rngs.append((lo, lo + sz, name.replace("github.com/bilibili/smgo/", "")))
+        rngs.append((lo, lo + sz, name.replace("github.com/bilibili/smgo/", ""), "a" if file.endswith(".s") else "g"))
     rngs.sort()
-    return rngs, harness
+    # addresses of the calls to runtime.morestack* (stack growth AND cooperative preemption enter through them)
+    more = set()
+    for m in re.finditer(r"^\s+\S+\s+0x([0-9a-f]+)\s+[0-9a-f]+\s+CALL runtime\.morestack", od, re.M):
+        more.add(int(m.group(1), 16))
+    return rngs, harness, more
 
 
 def run_steps(out, tier, seed, workdir, vt, binp, nm, mark):
@@ -170,7 +173,7 @@ def run_steps(out, tier, seed, workdir, vt, binp, nm, mark):
     if step is None:
         out.inconclusive.append("paths/steps: vtStepRun has no symbol")
         return
-    rngs, nharness = lib_ranges(binp, nm)
+    rngs, nharness, more = lib_ranges(binp, nm)
     if len(rngs) < 10:
         out.inconclusive.append("paths/steps: only %d library functions of package sm4 found in the binary" % len(rngs))
         return
@@ -182,8 +185,13 @@ def run_steps(out, tier, seed, workdir, vt, binp, nm, mark):
         if os.path.exists(q):
             os.remove(q)
     env = dict(os.environ, VERIF_VT_PLAN=plan, GODEBUG="asyncpreemptoff=1", GOMAXPROCS="1", VERIF_TIER=tier, VERIF_SEED=str(seed))
+    rfile = os.path.join(workdir, "steps_ranges.txt")
+    with open(rfile, "w") as fh:
+        for lo, hi, _n, kind in rngs:
+            fh.write("%x %x %s\n" % (lo, hi, kind))
+    bparg = ",".join(["%x:G" % step, "%x:m" % mark] + ["%x:L" % r[0] for r in rngs])
     with open(log, "w") as lf:
-        rc = subprocess.call(["timeout", "-s", "KILL", "2400", vt, "-o", trace, "-b", "%x:s,%x:m" % (step, mark), "--", binp, "-test.run", "^TestVtracePublicSteps$", "-test.timeout", "40m"],
+        rc = subprocess.call(["timeout", "-s", "KILL", "1200", vt, "-o", trace, "-r", rfile, "-b", bparg, "--", binp, "-test.run", "^TestVtracePublicSteps$", "-test.timeout", "20m"],
                              cwd=workdir, env=env, stdout=lf, stderr=subprocess.STDOUT)
     out.units.append({"unit": "public-steps", "rc": rc, "wall_s": round(time.time() - t0, 1)})
     if rc != 0 or not os.path.exists(plan):
@@ -225,6 +233,26 @@ def run_steps(out, tier, seed, workdir, vt, binp, nm, mark):
                 elif kind == 4 and cur in seqs:
                     seqs[cur].append(-1)
     os.remove(trace)
+    # The runtime re-runs a function's prologue when its stack check sends it to runtime.morestack (stack growth,
+    # and - far more often under a tracer - a cooperative preemption request). That detour depends on the scheduler,
+    # not on the operands: [entry .. check] [spill, CALL morestack, reload, JMP entry] [entry .. check] is reduced
+    # to its last run before sequences are compared.
+    detours = 0
+    for pid, sq in seqs.items():
+        k = 0
+        while k < len(sq):
+            if sq[k] in more:
+                i = bisect.bisect_right(los, sq[k]) - 1
+                entry = rngs[i][0]
+                a = next((x for x in range(k - 1, -1, -1) if sq[x] == entry), None)
+                b = next((x for x in range(k + 1, len(sq)) if sq[x] == entry), None)
+                if a is not None and b is not None:
+                    del sq[a:b]
+                    detours += 1
+                    k = a
+                    continue
+            k += 1
+    out.counters["public_steps_preemption_detours_removed"] = detours
     def fn_of(pc):
         i = bisect.bisect_right(los, pc) - 1
         return "%s+0x%x" % (rngs[i][2], pc - rngs[i][0]) if i >= 0 and pc < rngs[i][1] else hex(pc)
@@ -261,7 +289,13 @@ def run_steps(out, tier, seed, workdir, vt, binp, nm, mark):
     out.counters["public_steps_instructions_in_package"] = kept
     out.counters["public_steps_sequences_compared"] = compared
     out.counters["public_steps_shapes"] = len(groups)
-    out.notes["public_steps_library_functions"] = len(rngs)
+    out.notes["public_steps_library_functions"] = "%d Go functions stepped, %d assembly routines logged at entry" % (sum(1 for r in rngs if r[3] == "g"), sum(1 for r in rngs if r[3] == "a"))
+    try:
+        m = re.search(r"lib-steps (\d+) lib-lost (\d+)", open(log).read())
+        if m:
+            out.counters["public_steps_exits_without_resume_point"] = int(m.group(2))
+    except Exception:
+        pass
     if len(out.samples) < 10:
         g0 = sorted(groups)[0] if groups else None
         out.samples.append({"monitor": "public-steps", "shapes": len(groups), "sequences_compared": compared, "instructions_single_stepped": total,
